@@ -1,1 +1,3 @@
 import Props.Auto
+import Props.C06
+import Props.C18
